@@ -482,19 +482,11 @@ class InteractingNetworks(Network):
         :rtype: square numpy array [node_index, node_index]
         :return: link weights submatrix
         """
-        weights = np.zeros((len(node_list), len(node_list)))
-        subgraph = self.graph.subgraph(node_list)
-
-        if self.directed:
-            for e in subgraph.es:
-                weights[e.tuple] = e[attribute_name]
-        #  Symmetrize if subgraph is undirected
-        else:
-            for e in subgraph.es:
-                weights[e.tuple] = e[attribute_name]
-                weights[e.tuple[1], e.tuple[0]] = e[attribute_name]
-
-        return weights
+        #  Index the full link attribute matrix with the node list, so that
+        #  rows and columns follow the order of node_list (igraph's subgraph()
+        #  would silently sort the nodes by index)
+        nodes = np.asarray(node_list, dtype=int)
+        return self.link_attribute(attribute_name)[nodes, :][:, nodes]
 
     def cross_link_attribute(self, attribute_name, node_list1, node_list2):
         """
